@@ -15,7 +15,7 @@ from mc.ref.calendar import RefCalendar
 
 TOGGLES = [
     "res15", "res10", "eff03", "eff15", "wkend", "leave", "vac", "limr", "limg", "limt", "gap", "prio", "alapE", "pin",
-    "sc3", "sub", "month", "tz", "hours", "long", "r5", "deep", "dst", "rev", "shutdown",
+    "sc3", "sub", "month", "tz", "hours", "long", "r5", "deep", "dst", "rev", "shutdown", "night",
 ]
 FIRST = ("month", "dst")   # toggles that move the window: applied first, dated attributes follow the window
 
@@ -148,6 +148,13 @@ def apply(spec, tg, n):
     elif tg == "shutdown":
         # a five-week project vacation in the middle of the window (contains a whole calendar month at some starts)
         spec.setdefault("vacations", []).append((_day(spec, 14), _day(spec, 49)))
+    elif tg == "night":
+        # a night shift that runs from Sunday evening: the after-midnight half of 'sun' belongs to Monday (weekday wrap)
+        spec.setdefault("shifts", []).append({"id": "nt", "hours": [("sun - thu", ["22:00 - 6:00"])]})
+        r3 = _res(spec, "r3")   # r3 carries a task without predecessors: it can start in the Monday-morning half at once
+        r3["shift"] = "nt"
+        r3.pop("hours", None)
+        r3.pop("tz", None)
     elif tg == "rev":
         spec["tasks"].reverse()   # dependents are declared before what they wait for (ties: declaration order)
     elif tg == "deep":
@@ -179,7 +186,7 @@ def universe(tier):
 # ---- core-dialect variant for C07 (forward, whole-slot efforts, slot-aligned gaps, no alternatives) ---------------
 
 TOGGLES7 = ["res30", "res15", "res10", "effhalf", "wkend", "leave", "vac", "limr", "limg", "limt", "gap", "prio", "pin", "month", "tz",
-            "hours", "long", "r5", "deep", "dst", "rev", "shutdown"]
+            "hours", "long", "r5", "deep", "dst", "rev", "shutdown", "night"]
 
 
 def to_spec7(item):
@@ -375,6 +382,6 @@ def sweep(ctx, st, prop):
 
 
 NOTE = ("'wide' family: 2 ten-task base projects (3-level task and resource trees, team, alternative, milestone, container edges, "
-        "window across the year boundary) x every subset of <= 2 (thorough: <= 3) of 25 feature toggles (resolution 15/10 min, efficiency "
+        "window across the year boundary) x every subset of <= 2 (thorough: <= 3) of 26 feature toggles (resolution 15/10 min, efficiency "
         "0.3/1.5, weekend-only resource, leaves, vacation, resource/group/task limits, gaps, priorities, ALAP task, container pin, third "
-        "scenario, sub-slot efforts, month boundary, time zone, split hours, multi-week effort, fifth resource, 5-level nesting, a window across two daylight-saving switches with zoned seven-day resources, reversed declaration order, a five-week project vacation)")
+        "scenario, sub-slot efforts, month boundary, time zone, split hours, multi-week effort, fifth resource, 5-level nesting, a window across two daylight-saving switches with zoned seven-day resources, reversed declaration order, a five-week project vacation, a Sunday-to-Thursday night shift)")
